@@ -637,7 +637,24 @@ def r41(ctx: Ctx) -> RuleReport:
                 nm = n.values[1].value.id
             if nm and (f"{nm}.startswith(':')", False) in facts_ex(ctx, f, n):
                 adds = True
-    rep.oblige('_parse_triples adds the colon exactly when it is absent', adds, '', pt.loc(), key='_parse_triples restores colon')
+    canon_call = None
+    if not adds:
+        # the colon is "restored" by Model.canonicalize_role (directly, or through a module-level alias of the bound method)
+        for f in local_callees(ctx, pt, depth=1):
+            for n in walk_local(f.node):
+                if isinstance(n, ast.Call):
+                    fn = n.func
+                    if isinstance(fn, ast.Name) and fn.id in f.module.constants:
+                        fn = f.module.constants[fn.id]
+                    if isinstance(fn, ast.Attribute) and fn.attr in ('canonicalize_role', 'canonicalize'):
+                        canon_call = (f, n)
+    if canon_call:
+        f, n = canon_call
+        rep.violation('_parse_triples restores colon', f.loc(n), f'`{norm(n)[:50]}` puts the colon back with Model.canonicalize_role, which does more than that: it also removes '
+                      f'pairs of -of and applies the normalisation table. "ARG0-of-of(b, a)" is read as (b :ARG0 a): the role that is read is not the role that was written, so '
+                      f'the triple conjunction no longer gives back the triples it was written from')
+    else:
+        rep.oblige('_parse_triples adds the colon exactly when it is absent', adds, '', pt.loc(), key='_parse_triples restores colon')
     # a flag carried from one conjunct to the next (was the `^` glued to the role?) is decided anew for every conjunct
     from ..cfg import assigned_names
     for loop in [n for n in walk_local(pt.node) if isinstance(n, (ast.While, ast.For))]:
@@ -858,12 +875,53 @@ def r69(ctx: Ctx) -> RuleReport:
 
 
 # ---------------------------------------------------------------------------------------------
+def _r98_regex_form(ctx: Ctx, rep: RuleReport) -> bool:
+    """The metadata fields are found with a regular expression (<RE>.finditer(comment)).  What the writer emits for a field must be in its
+    language: "::key value", and for an empty value the bare "::key" (format() writes `# ::key` then)."""
+    import re as _re
+    from ..rx import Lang
+    m = ctx.repo.module('penman._parse')
+    for fi in m.all_funcs:
+        for n in walk_local(fi.node):
+            if not (isinstance(n, ast.Call) and isinstance(n.func, ast.Attribute) and n.func.attr in ('finditer', 'findall') and isinstance(n.func.value, ast.Name)):
+                continue
+            cv = m.constants.get(n.func.value.id)
+            if not (isinstance(cv, ast.Call) and norm(cv.func) == 're.compile' and cv.args):
+                continue
+            ok, pat = try_fold(cv.args[0], {}, ctx.repo, m)
+            if not ok or not isinstance(pat, str) or '::' not in pat:
+                continue
+            body = pat
+            look = _re.search(r'\(\?=([^()]*)\)$', pat)
+            if look:
+                body = pat[:look.start()]
+            key = f'{fi.fq}: the field pattern {pat!r} recognises every field the writer emits'
+            try:
+                lang = Lang.from_pattern(body)
+                missing = [smp for smp in ('::k', '::k v', '::k v w') if lang.witness_intersection(Lang.from_pattern(_re.escape(smp))) is None]
+            except AnalysisError as exc:
+                rep.undecided(key, fi.loc(n), str(exc)[:100])
+                return True
+            if '::k' in missing:
+                rep.violation(key, fi.loc(n), f'the pattern needs something after the key ({body!r} does not match the text "::k"): a field without a value that ends its comment line is '
+                              f'skipped. That is exactly what format() writes for an empty value ("# ::preferred"), so parsing what was written loses the key - metadata is not '
+                              f'reproduced and format(parse(x)) is not a fixed point')
+            elif missing:
+                rep.violation(key, fi.loc(n), f'the pattern does not match {missing}: such a field is skipped')
+            else:
+                rep.undecided(key, fi.loc(n), 'a regular-expression scanner: its agreement with the "::"-partition scanner on every comment text is not established')
+            return True
+    return False
+
+
 @rule('R98', 'the comment scanner records every "::key value" segment of every comment line and hands the map to the tree')
 def r98(ctx: Ctx) -> RuleReport:
     rep = RuleReport('R98', r98.title, floor=3)
     cands = [f for f in ctx.repo.module('penman._parse').all_funcs
              if any(isinstance(n, ast.Call) and isinstance(n.func, ast.Attribute) and n.func.attr in ('rpartition', 'partition', 'split', 'rsplit') and n.args
                     and try_fold(n.args[0], {}, ctx.repo, f.module) == (True, '::') for n in walk_local(f.node))]
+    if not cands and _r98_regex_form(ctx, rep):
+        return rep
     if len(cands) != 1:
         rep.undecided('penman._parse: one function splits comment text at "::"', 'penman/_parse.py', f'{len(cands)} such functions')
         return rep
